@@ -35,11 +35,20 @@
                                                    -> generators_distinct_at_use, options_generator_is_the_given_seed
                                                       (the generator a component obtains from its options is made
                                                       from exactly the child seed: distinct at the point of use)
-   * the same for pipelines over histories         -> pipeline_retrain_equals_fresh *)
+                                                   -> zero_is_a_seed (seeds are VALUES: the seed that is false in a truth
+                                                      test -- 0, numpy.int64(0) -- is a kind of its own, KSeedZero, in
+                                                      seeds_distinct / generators_distinct_at_use, and the generated plan
+                                                      wraps and spawns it like every other number)
+   * the same for pipelines over histories         -> pipeline_retrain_equals_fresh
+   * "no identifiers, statistics or parameters from earlier training data survive" when training histories happen in a
+     process where datasets are DROPPED and their addresses handed to later datasets while trained models stay alive
+                                                   -> training_keeps_nothing_outside_the_component (regenerated scan),
+                                                      dropped_datasets_leave_nothing_behind, lifetimes_retrain_equals_fresh,
+                                                      identity_keyed_table_is_stale (counter-model) *)
 From Coq Require Import ZArith List Bool Lia.
 From Coq Require String.
 Import String.StringSyntax.
-From LK Require Import Model.C18_retrain Gen.C18_frames Proofs.C18_proofs Proofs.C18_main Proofs.C18_frames_ok Proofs.C18_pipeline Proofs.C18_shapes.
+From LK Require Import Model.C18_retrain Gen.C18_frames Proofs.C18_proofs Proofs.C18_main Proofs.C18_frames_ok Proofs.C18_pipeline Proofs.C18_shapes Proofs.C18_life Proofs.C18_life_gen.
 Import ListNotations.
 Local Open Scope string_scope.
 
@@ -135,7 +144,7 @@ Print Assumptions walking_from_the_outputs_is_not_enough.
 
 Theorem seeds_distinct : forall (Seed : Type) (spawn : nat -> Seed),
   (forall i j, spawn i = spawn j -> i = j) ->                     (* numpy SeedSequence.spawn: library contract *)
-  forall k, k = KSeedLike \/ k = KSeedSequence ->
+  forall k, k = KSeedLike \/ k = KSeedSequence \/ k = KSeedZero ->
   forall retrain sb ns,
     let calls := ptrain_calls (pt_seed_plan k) pt_spawn_width retrain (start_index (pt_seed_plan k) sb) ns in
     Forall (fun c => exists i, pc_rng c = CSpawn i) calls /\
@@ -150,12 +159,18 @@ Theorem generators_distinct_at_use : forall (Seed Gen : Type) (spawn : nat -> Se
   (forall i j, spawn i = spawn j -> i = j) ->
   (forall s t, gen_of s = gen_of t -> s = t) ->
   options_rng_passthrough = true ->
-  forall k, k = KSeedLike \/ k = KSeedSequence ->
+  forall k, k = KSeedLike \/ k = KSeedSequence \/ k = KSeedZero ->
   forall retrain sb ns,
     let calls := ptrain_calls (pt_seed_plan k) pt_spawn_width retrain (start_index (pt_seed_plan k) sb) ns in
     NoDup (map (fun c => match pc_rng c with CSpawn i => Some (gen_of (spawn i)) | CSame => None end) calls).
 Proof. exact generators_distinct_at_use_l. Qed.
 Print Assumptions generators_distinct_at_use.
+
+(* seed VALUES: zero -- false in a truth test, so a test like `not rng` would take it for "no seed" -- gets the plan of
+   every other number (regenerated from the if-chain of Pipeline.train, whose tests may be by type or by value) *)
+Theorem zero_is_a_seed : pt_seed_plan KSeedZero = pt_seed_plan KSeedLike /\ pt_seed_plan KSeedZero = PlanWrap.
+Proof. exact zero_is_a_seed_l. Qed.
+Print Assumptions zero_is_a_seed.
 
 Theorem options_generator_is_the_given_seed : options_rng_passthrough = true.
 Proof. exact options_passthrough_l. Qed.
@@ -171,6 +186,48 @@ Theorem pipeline_retrain_equals_fresh : forall (D B : Type) (fit : D -> B * chil
 Proof. exact pipeline_retrain_equals_fresh_l. Qed.
 Print Assumptions pipeline_retrain_equals_fresh.
 
+(* ---- object lifetimes ----------------------------------------------------------------------------------------
+   A training history happens in a process: dataset OBJECTS live at addresses, are dropped, and their addresses are
+   handed to later datasets while the models trained on them stay alive.  `run_life keeps` is the history with a table,
+   outside the components, from the identity of the data to what was learned from it -- the most general state a
+   training can keep outside the instance dictionary; `train_keeps_outside` is regenerated from the source. *)
+
+(* the scan of every module reachable from a train() path finds no memoising decorator, no id() call, no module- or
+   class-level table or container default written by a function, no `global` assignment -- apart from the listed
+   process-wide configuration / display state *)
+Theorem training_keeps_nothing_outside_the_component : outside_state = [] /\ train_keeps_outside = false.
+Proof. exact (conj outside_state_empty_l keeps_nothing_outside_l). Qed.
+Print Assumptions training_keeps_nothing_outside_the_component.
+
+(* hence lifetimes are invisible: whatever addresses the dataset objects had (recycled or not) and whatever the table held,
+   a lifetime history ends in the component of the plain history over the contents, and the table is untouched *)
+Theorem dropped_datasets_leave_nothing_behind : forall (D S : Type) (fit : D -> S -> store -> fitres) fr
+    (h : list (dobj D * opts S)) c (m : memo D),
+  run_life fit train_keeps_outside fr h (c, m) = (run fit fr (contents h) c, m).
+Proof. exact dropped_datasets_leave_nothing_behind_l. Qed.
+Print Assumptions dropped_datasets_leave_nothing_behind.
+
+(* ... so for every shipped class a retraining at the end of ANY lifetime history equals a fresh component trained on the
+   content of the last dataset object alone *)
+Theorem lifetimes_retrain_equals_fresh : forall fr, In fr frames ->
+  forall (D S : Type) (fit : D -> S -> store -> fitres) (h : list (dobj D * opts S)) x o (m : memo D), o_retrain o = true ->
+  forall a, lookup a (fst (run_life fit train_keeps_outside fr (h ++ [(x, o)]) ([], m))) = lookup a (train fit fr (ob_data x) o []).
+Proof. exact lifetimes_retrain_equals_fresh_l. Qed.
+Print Assumptions lifetimes_retrain_equals_fresh.
+
+(* why the scan is needed: with a table keyed by the identity of the data, dataset A (content 1) at address 7 is trained on
+   and dropped, dataset B (content 2) is allocated at address 7 -- the retrained AND a freshly constructed component come out
+   with the model of A; with both objects alive (addresses 7 and 8) nothing shows *)
+Theorem identity_keyed_table_is_stale :
+  frame_ok life_frame = true /\
+  lookup "items_" (fst (run_life life_fit true life_frame life_history ([], []))) = Some 1%Z /\
+  lookup "items_" (fst (train_life life_fit true life_frame (mkObj 7 2%Z) (mkOpts true tt)
+                          ([], snd (run_life life_fit true life_frame [(mkObj 7 1%Z, mkOpts true tt)] ([], []))))) = Some 1%Z /\
+  lookup "items_" (train life_fit life_frame 2%Z (mkOpts true tt) []) = Some 2%Z /\
+  lookup "items_" (fst (run_life life_fit true life_frame [(mkObj 7 1%Z, mkOpts true tt); (mkObj 8 2%Z, mkOpts true tt)] ([], []))) = Some 2%Z.
+Proof. exact identity_keyed_table_is_stale_l. Qed.
+Print Assumptions identity_keyed_table_is_stale.
+
 (* non-vacuity: a closed frame, a history with a retraining on smaller data and a skipped call; the
    hypotheses of the theorems above hold and the states are not trivial *)
 Example c18_nonvacuous :
@@ -183,7 +240,12 @@ Example c18_nonvacuous :
   guard_holds (fr_guard fr) (run fit fr h []) = true /\
   existsb (fun f => negb (is_nil (fr_wmust f)) && negb (is_nil (fr_reads f))) frames = true /\
   ptrain_calls (pt_seed_plan KSeedLike) pt_spawn_width true 0 [mkNode "a" true; mkNode "b" false; mkNode "c" true]
-    = [mkCall "a" true (CSpawn 0); mkCall "c" true (CSpawn 1)].
+    = [mkCall "a" true (CSpawn 0); mkCall "c" true (CSpawn 1)] /\
+  (* the seed zero *)
+  ptrain_calls (pt_seed_plan KSeedZero) pt_spawn_width true 0 [mkNode "a" true; mkNode "b" false; mkNode "c" true]
+    = [mkCall "a" true (CSpawn 0); mkCall "c" true (CSpawn 1)] /\
+  (* a lifetime history: the second dataset object lives at the address of the dropped first one *)
+  lookup "scores_" (fst (run_life fit train_keeps_outside fr [(mkObj 7 5%Z, mkOpts true 1%Z); (mkObj 7 3%Z, mkOpts true 2%Z)] ([], [(7, 9%Z)]))) = Some 302%Z.
 Proof.
   cbv zeta. repeat split; vm_compute; reflexivity.
 Qed.
